@@ -54,7 +54,25 @@ func init() {
 		if !okm {
 			return false, "outside the domain (invalid version, equal bounds or non-alternating comparators)"
 		}
-		text := model.VersText(scheme, cs)
+		// the model works on the constraints sorted by version; the range text may list them in any order (inputs[3],
+		// optional: a permutation of the constraint indices), which VERS normalises away
+		written := cs
+		if len(c.Inputs) > 3 {
+			var perm []int
+			if err := json.Unmarshal([]byte(c.Inputs[3]), &perm); err != nil || len(perm) != len(cs) {
+				return false, "bad permutation"
+			}
+			seen := map[int]bool{}
+			written = nil
+			for _, k := range perm {
+				if k < 0 || k >= len(cs) || seen[k] {
+					return false, "bad permutation"
+				}
+				seen[k] = true
+				written = append(written, cs[k])
+			}
+		}
+		text := model.VersText(scheme, written)
 		got, err := vers.Contains(text, probe)
 		if err != nil {
 			return true, fmt.Sprintf("vers.Contains(%q, %q) returned an error for a well-formed range: %v", text, probe, err)
@@ -218,6 +236,22 @@ func TestC04(t *testing.T) {
 				set = append(set, c.V)
 			}
 			cj, _ := json.Marshal(cs)
+			// half of the ranges are written in a random order of their constraints
+			var permJSON string
+			if len(cs) > 1 && gen.Chance(rt, "shuffle", 1, 2) {
+				idx := make([]int, len(cs))
+				for i := range idx {
+					idx[i] = i
+				}
+				pj, _ := json.Marshal(rapid.Permutation(idx).Draw(rt, "perm"))
+				permJSON = string(pj)
+			}
+			// probes that compare equal to a bound but are spelled differently
+			for i, c := range cs {
+				if vars := gen.EqualVariants(e, c.V); len(vars) > 0 && gen.Chance(rt, fmt.Sprintf("eqv%d", i), 1, 3) {
+					probes = append(probes, vars[rapid.IntRange(0, len(vars)-1).Draw(rt, fmt.Sprintf("eqi%d", i))])
+				}
+			}
 			for _, probe := range probes {
 				if cls := known.CycleInSet(e.Name, append(append([]string{}, set...), probe)); cls != "" {
 					r.ev.Excluded("C01:" + cls)
@@ -228,6 +262,9 @@ func TestC04(t *testing.T) {
 					continue
 				}
 				kc := known.Case{Check: "contains", Eco: scheme, Inputs: []string{scheme, probe, string(cj)}}
+				if permJSON != "" {
+					kc.Inputs = append(kc.Inputs, permJSON)
+				}
 				if r.check(rt, kc) && len(cs) >= 3 {
 					cls := versClass(cs)
 					if cls != fmt.Sprintf("n=%d", len(cs)) {
